@@ -33,6 +33,7 @@ func init() {
 // ---- the service universe
 
 type regMethod struct {
+	stream  bool // server-streaming (registered by registerService's second loop)
 	id      int
 	svc     string
 	name    string
@@ -62,7 +63,7 @@ func (u *regUniverse) bySvc(svc string) []*regMethod {
 func (u *regUniverse) full(m *regMethod) string { return "/" + fxPkg + "." + m.svc + "/" + m.name }
 
 func newRegUniverse() (*regUniverse, error) {
-	u := &regUniverse{svcs: []string{"SvcA", "SvcB", "SvcC", "SvcD", "SvcE"}, subFx: map[int]*Fixture{}}
+	u := &regUniverse{svcs: []string{"SvcA", "SvcB", "SvcC", "SvcD", "SvcE", "SvcF"}, subFx: map[int]*Fixture{}}
 	// the annotated routes share trie nodes: one node (/c11/v) holds a literal child and five
 	// variables that sort as  *  a/*  b/*  c/**  — pruning one must not disturb the others.
 	d := getRule("/c11/v/{name=c/**}")
@@ -75,6 +76,10 @@ func newRegUniverse() (*regUniverse, error) {
 		{id: 5, svc: "SvcC", name: "M5", rule: getRule("/c11/v/{name=a/*}"), keys: []int{105, 1}, samples: [][2]string{{"POST", ""}, {"GET", "/c11/v/a/n5"}}},
 		{id: 6, svc: "SvcD", name: "M6", rule: d, keys: []int{106, 4, 5}, samples: [][2]string{{"POST", ""}, {"GET", "/c11/v/c/x/y"}, {"GET", "/c11/w/z"}}},
 		{id: 7, svc: "SvcE", name: "M7", rule: getRule("/c11/v/{name}"), keys: []int{107, 6}, samples: [][2]string{{"POST", ""}, {"GET", "/c11/v/solo"}}},
+		// SvcF: a unary method and a streaming one whose route is also claimed by M1 / M5 — a
+		// registration that fails in its second half must leave nothing of its first half
+		{id: 8, svc: "SvcF", name: "M8", rule: getRule("/c11/f/{name}"), keys: []int{108, 7}, samples: [][2]string{{"POST", ""}, {"GET", "/c11/f/n8"}}},
+		{id: 9, svc: "SvcF", name: "M9", stream: true, rule: getRule("/c11/v/{name=a/*}"), keys: []int{109, 1}, samples: [][2]string{{"POST", ""}, {"GET", "/c11/v/a/n9"}}},
 	}
 	for _, m := range u.methods {
 		m.samples[0][1] = u.full(m)
@@ -82,7 +87,7 @@ func newRegUniverse() (*regUniverse, error) {
 	var err error
 	fixtureDeferRegistration = true
 	defer func() { fixtureDeferRegistration = false }()
-	u.fx, err = NewFixture(u.specs(31, "local"), nil)
+	u.fx, err = NewFixture(u.specs(63, "local"), nil)
 	return u, err
 }
 
@@ -94,6 +99,18 @@ func (u *regUniverse) specs(mask int, tag string) []*MethodSpec {
 			continue
 		}
 		for _, m := range u.bySvc(svc) {
+			if m.stream {
+				out = append(out, &MethodSpec{Service: svc, Name: m.name, In: "Req", Out: "Reply", Rule: m.rule, ServerStream: true,
+					Stream: func(fx *Fixture, ms *MethodSpec, st grpc.ServerStream) error {
+						if err := st.RecvMsg(fx.NewMsg("Req")); err != nil {
+							return err
+						}
+						r := fx.NewMsg("Reply")
+						r.Set(r.Descriptor().Fields().ByName("text"), protoreflect.ValueOfString(tag))
+						return st.SendMsg(r)
+					}})
+				continue
+			}
 			out = append(out, &MethodSpec{Service: svc, Name: m.name, In: "Req", Out: "Reply", Rule: m.rule,
 				Unary: func(ctx context.Context, in *dynamicpb.Message) (proto.Message, error) {
 					if u.calls != nil {
@@ -169,16 +186,16 @@ func newRegBackend(u *regUniverse, idx int) (*regBackend, error) {
 	b := &regBackend{idx: idx, tag: "b" + strconv.Itoa(idx), u: u, files: map[int]*Fixture{}}
 	fixtureDeferRegistration = true
 	defer func() { fixtureDeferRegistration = false }()
-	for mask := 1; mask < 32; mask++ {
+	for mask := 1; mask < 64; mask++ {
 		fx, err := NewFixture(u.specs(mask, b.tag), nil)
 		if err != nil {
 			return nil, err
 		}
 		b.files[mask] = fx
 	}
-	b.mask.Store(31)
+	b.mask.Store(63)
 	b.gs = grpc.NewServer()
-	for _, sd := range b.files[31].ServiceDescs() {
+	for _, sd := range b.files[63].ServiceDescs() {
 		b.gs.RegisterService(sd, nil)
 	}
 	rpb.RegisterServerReflectionServer(b.gs, reflection.NewServer(reflection.ServerOptions{Services: b, DescriptorResolver: b}))
@@ -281,6 +298,13 @@ func (r *regRun) implState() string {
 		cn = append(cn, fmt.Sprintf("%d=%s:%s", b.idx+1, hvs, strings.Join(ms, ".")))
 	}
 	return strings.Join(hs, ";") + "#" + strings.Join(cn, ";") + "#" + strings.Join(live, ";")
+}
+
+func b2i(b bool) int {
+	if b {
+		return 1
+	}
+	return 0
 }
 
 func without(l []string, o string) []string {
@@ -419,14 +443,14 @@ func (r *regRun) probe(rounds int) {
 		// both at once is impossible (the second registration fails with a duplicate rule).
 		shared := map[string]bool{}
 		for _, m2 := range r.u.methods {
-			if m2.id == 1 || m2.id == 5 {
+			if m2.id == 1 || m2.id == 5 || m2.id == 9 {
 				for _, o := range r.live[m2.id] {
 					shared[tagOf(o)] = true
 				}
 			}
 		}
-		if len(r.live[1]) > 0 && len(r.live[5]) > 0 {
-			r.c.SpecFail("registry", r.hist, "methods 1 and 5 both live", "the second registration fails", "C11/conflicting-both-live", "two methods bound to the same route are both registered")
+		if b2i(len(r.live[1]) > 0)+b2i(len(r.live[5]) > 0)+b2i(len(r.live[9]) > 0) > 1 {
+			r.c.SpecFail("registry", r.hist, fmt.Sprintf("methods claiming one route live together: 1:%v 5:%v 9:%v", r.live[1], r.live[5], r.live[9]), "the second registration fails", "C11/conflicting-both-live", "two methods bound to the same route are both registered")
 		}
 		allowed := own
 		check := func(via string, code int, tag string, pn interface{}, body string) {
@@ -502,7 +526,7 @@ func (r *regRun) probe(rounds int) {
 }
 
 func runC11(c *Ctx) {
-	c.Rule("random histories of RegisterService / RegisterConn / DropConn over 5 services (7 methods; annotated routes that share one trie node holding a literal and four sorted variables, a deep wildcard, additional bindings, two services claiming the same route), 4 real gRPC backends with server reflection whose advertised descriptor set can change between calls (unchanged re-registration, changed re-registration, registrations that fail with a duplicate rule), an unknown connection, local registrations; after every call the published state (handler owners per method in order, connection table, where every live route leads) is compared with the Lean state machine, and every method is probed on every one of its routes and over gRPC: the answering backend must be live, a method with a live backend answers 200, one without 404/501. Non-trivial: histories of at least two calls; distinct by history+probe.")
+	c.Rule("random histories of RegisterService / RegisterConn / DropConn over 6 services (9 methods, one of them streaming; annotated routes that share one trie node holding a literal and four sorted variables, a deep wildcard, additional bindings, two services claiming the same route), 4 real gRPC backends with server reflection whose advertised descriptor set can change between calls (unchanged re-registration, changed re-registration, registrations that fail with a duplicate rule), an unknown connection, local registrations; after every call the published state (handler owners per method in order, connection table, where every live route leads) is compared with the Lean state machine, and every method is probed on every one of its routes and over gRPC: the answering backend must be live, a method with a live backend answers 200, one without 404/501. Non-trivial: histories of at least two calls; distinct by history+probe.")
 	u, err := newRegUniverse()
 	if err != nil {
 		c.SpecFail("fixture", "c11", err.Error(), "universe", "C11/fixture", "fixture")
@@ -525,7 +549,7 @@ func runC11(c *Ctx) {
 	}
 	defer ub.close()
 
-	masks := []int{1, 2, 3, 4, 8, 16, 17, 18, 24, 9, 10, 6, 5, 15, 11, 27, 31, 26, 19}
+	masks := []int{1, 2, 3, 4, 8, 16, 17, 18, 24, 9, 10, 6, 5, 15, 11, 27, 31, 26, 19, 32, 34, 33, 48, 42}
 	nh := c.N(30, 400)
 	for h := 0; h < nh; h++ {
 		mux, err := larking.NewMux(larking.FilesOption(u.fx.Files), larking.TypesOption(u.fx.Types))
@@ -570,7 +594,7 @@ func runC11(c *Ctx) {
 			} else {
 				switch x := c.Rng.Intn(20); {
 				case x < 2:
-					r.doOp("S", c.Rng.Intn(5), 0)
+					r.doOp("S", c.Rng.Intn(6), 0)
 				case x < 11:
 					b := c.Rng.Intn(4)
 					mask := masks[c.Rng.Intn(len(masks))]
